@@ -1,8 +1,8 @@
 """All jobs and the property table."""
-from . import jobs_util, jobs_perm, jobs_aead, jobs_spec, jobs_clean, jobs_hash, jobs_l2, jobs_prng, jobs_ct, native, facts
+from . import jobs_util, jobs_perm, jobs_aead, jobs_spec, jobs_clean, jobs_hash, jobs_l2, jobs_prng, jobs_ct, jobs_stub, native, facts
 
 JOBS = {}
-for mod in (jobs_util, jobs_perm, jobs_aead, jobs_spec, jobs_clean, jobs_hash, jobs_l2, jobs_prng, jobs_ct):
+for mod in (jobs_util, jobs_perm, jobs_aead, jobs_spec, jobs_clean, jobs_hash, jobs_l2, jobs_prng, jobs_ct, jobs_stub):
     for j in mod.JOBS:
         assert j["name"] not in JOBS, j["name"]
         JOBS[j["name"]] = j
@@ -16,7 +16,7 @@ TRUSTED = [
     "CBMC 6.11 C semantics: LP64, little-endian x86-64 model, bit-vector machine arithmetic exactly as C defines it",
     "goto-instrument legacy (non-DFCC) loop-contract and function-contract instrumentation",
     "SAT back ends: minisat 2.2.1 (built in) / kissat 4.0.1 (external)",
-    "CBMC's libc models except memcpy/memset where stubs/mem.c (byte loop) is linked",
+    "CBMC's libc models; where a copy length is symbolic stubs/mem.c (byte loops, checked equal to the built-in models for n <= 64 by stub.mem.equiv) or the ghost-index models stubs/mem*_ghost.c are linked",
     "the specification text: spec/nlfsr.h (bit-serial NLFSR), spec/tick.h (per-block mode semantics), program tables in stubs/mon.c; validated natively against all 8584 vectors of /repo/test/kat on every run (a test, not a proof)",
     "gcc/clang compile the same source faithfully (compilers, optimisation levels, sanitizer builds, assembly backends are outside a source-level verifier)",
 ]
@@ -25,7 +25,7 @@ MODULAR = ("modular step: callers are verified against the contract stubs of set
            "the composition (a theorem proved for every permutation function holds for the NLFSR) is the standard modular argument, not re-checked by the tool")
 
 NN = (128, 192, 256)
-LEAF = ["leaf%d.%s" % (n, k) for n in NN for k in ("setup", "tag", "absorb")]
+LEAF = ["leaf%d.%s" % (n, k) for n in NN for k in ("setup", "tag", "absorb", "absorb.al")]
 UTIL = ["util.check_tag.contract", "util.check_tag.size8", "util.check_tag.grid"]
 PERM_Q = [j["name"] for j in jobs_perm.JOBS if j["quick"]]
 PERM_ALL = [j["name"] for j in jobs_perm.JOBS]
@@ -51,7 +51,7 @@ PROPS = {
         "level": "proof",
         "quick": PERM_LIB + LEAF + names("aead", ["enc"], ["grid"]),
         "thorough": PERM_LIB + LEAF + names("aead", ["enc"], ["grid", "u"]),
-        "pre": [native.katcheck, native.aead_compilers], "campaign": native.aead_campaign,
+        "pre": [native.katcheck, native.aead_compilers], "campaign": native.huge_campaign("aead"),
         "text": "L0: the C permutations equal the bit-serial NLFSR of the specification for the round counts the AEAD uses (5, 8/9/10), all states and keys; L1: encrypt == SpecEnc (frame bits 1/3/5/7, 640-step and long permutations, partial-block length injection, two-squeeze tag) for every permutation function.",
         "note": "spec <-> TinyJAMBU v2 paper correspondence is by reading plus native KAT replay of the reference model; message loop unbounded only in the thorough tier (quick: bounded grid). " + MODULAR + ". Compilers, optimisation levels, shared vs static objects not covered.",
         "technique": "CBMC equivalence miter (kissat) for the permutation + contract/loop-contract proofs against the spec monitor",
@@ -91,7 +91,7 @@ PROPS = {
         "level": "proof",
         "quick": LEAF + UTIL + names("siv", ["enc", "dec"], ["grid"]) + names("siv", ["dec"], ["short"]) + ["spec.siv.rt"],
         "thorough": LEAF + UTIL + names("siv", ["enc", "dec"], ["grid", "u", "ui"]) + names("siv", ["dec"], ["short"]) + ["spec.siv.rt"],
-        "pre": [native.katcheck], "campaign": native.aead_campaign,
+        "pre": [native.katcheck], "campaign": native.huge_campaign("aead"),
         "text": "siv_encrypt == SpecSivEnc and siv_decrypt == SpecSivDec (two-pass program: MAC pass with nonce domain 9, keystream pass keyed by npub[0..3] || tag with domains B/D) for the 6 real functions; decrypt's MAC pass runs over the recovered plaintext and check_tag gets the specification's tag and the received tag; keystream lemma SpecDec(SpecEnc(m)) = m; clen < 8 rejected without processing.",
         "note": "keystream loops unbounded only in the thorough tier (quick: bounded grid). " + MODULAR,
         "technique": "CBMC contracts: spec monitor in callee contract stubs + loop contracts",
@@ -101,7 +101,7 @@ PROPS = {
         "level": "proof",
         "quick": LEAF + names("siv", ["enc"], ["grid"]),
         "thorough": LEAF + names("siv", ["enc"], ["grid", "u"]),
-        "pre": [native.katcheck], "campaign": native.aead_campaign,
+        "pre": [native.katcheck], "campaign": native.huge_campaign("aead"),
         "text": "construction part: siv_encrypt output == documented two-pass construction for every input: tag = TinyJAMBU MAC over (nonce, AD, plaintext) with nonce domain 0x90; body = plaintext XOR keystream whose permutation inputs are functions of (key, npub[0..3], tag) only (the plaintext enters only the output XOR in pass 2).",
         "note": "NOT decided: 'two messages differing in any bit get different IVs and unrelated bodies beyond chance' is a probabilistic statement about the MAC (PRF assumption); it follows from the construction and is recorded as an assumption. Determinism: no other inputs (see C19). " + MODULAR,
         "technique": "CBMC contracts: spec monitor in callee contract stubs + loop contracts",
@@ -253,13 +253,13 @@ C06_JOBS = (UTIL + LEAF + names("aead", ["enc", "dec"], ["grid"]) + names("siv",
             + names("siv", ["dec"], ["short"]) + HASH_Q + ["hkdf.expand.sm", "hkdf.oneshot.cap", "pbkdf2.shape.blocks.c0", "pbkdf2.shape.blocks.c1",
                "pbkdf2.shape.chain", "prng.generate.budget", "prng.set_limit", "prng.feed.budget", "prng.reseed.budget", "prng.init.budget",
                "clean.exact", "clean.arena", "free.hmac", "free.hkdf", "free.prng", "trng.getrandom", "trng.getentropy", "trng.syscall",
-               "hmac.setkey.u", "hmac.finalize.u", "hmac.rfc2104.grid.0", "hmac.rfc2104.grid.5", "hkdf.step.grid.4", "hkdf.extract.grid.0", "pbkdf2.grid.1", "prng.ops.fn.0", "prng.generate.fn.4", "prng.feed.proto", "prng.reseed.proto", "prng.init.proto", "hkdf.extract.u"])
+               "hmac.setkey.u", "hmac.finalize.u", "hmac.rfc2104.grid.0", "hmac.rfc2104.grid.5", "hkdf.step.grid.4", "hkdf.extract.grid.0", "pbkdf2.grid.1", "prng.ops.fn.0", "prng.generate.fn.4", "prng.feed.proto", "prng.reseed.proto", "prng.init.proto", "hkdf.extract.u", "stub.mem.equiv", "clean.grid", "hmac.reinit.u", "hmac.update.seq", "hmac.oneshot.seq"])
 PROPS["C06"] = {
     "level": "proof",
     "quick": C06_JOBS,
     "thorough": C06_JOBS + ["hash.update.u", "aead128.enc.ui", "siv128.enc.ui"]
                 + [n for n in JOBS if n.startswith(("hmac.rfc2104.grid.", "hkdf.step.grid.", "hkdf.extract.grid.", "pbkdf2.grid.", "prng.ops.fn.", "prng.generate.fn."))],
-    "campaign": _all_campaigns,
+    "campaign": _all_campaigns, "pre": [native.sanitizer_campaign],
     "text": "for every API function reached by the harnesses: CBMC's pointer-dereference, array-bounds, signed-overflow, undefined-shift and division checks on the real code, with every caller buffer an object of EXACTLY the declared length (any access outside the declared range is an object-bounds failure), symbolic lengths closed by loop contracts (absorb, check_tag, clean, hkdf_expand, pbkdf2, prng_generate, trng retry; message loops in the thorough tier) or concrete on the grids (the unbounded message-loop proofs of the 12 AEAD/SIV functions, which carry the same safety obligations for every length, run in the thorough tiers of C01/C03/C04/C08), loop and function frames (assigns clauses), 'inputs unchanged' at ghost indices, NULL with zero length (AEAD/SIV AD and message, hash_update), exact aliasing c == m (in-place variants), guard bytes behind outputs.",
     "note": "outputs never depend on uninitialised memory: CBMC gives uninitialised memory nondeterministic values, so every functional postcondition (C01-C04, C08-C15) proves independence for that output; there is no separate definedness check. memcpy(dst, NULL, 0) (hash_update(st, NULL, 0) with posn > 0, NULL salts) accesses nothing; ISO C before C2y calls it undefined - recorded as an observation, not a violation. Alignment: CBMC's memory model is alignment-insensitive; all buffer accesses in the code are byte-wide; code that inspects pointer bits is covered by the alignment-offset grids. Optimised production objects and sanitizer builds are not covered.",
     "technique": "CBMC safety obligations + frame (assigns) obligations on the real code under contracts, exact-size objects, loop contracts",
@@ -277,9 +277,13 @@ PROPS["C07"] = {
 }
 PROPS["C19"] = {
     "level": "other",
-    "quick": ["hash.oneshot.seq", "hash.init", "hkdf.oneshot.cap", "leaf128.setup", "leaf128.tag", "util.check_tag.contract", "clean.arena", "free.prng", "trng.getrandom", "prng.init.budget"],
+    "quick": ["hash.oneshot.seq", "hash.init", "hash.reinit", "hkdf.oneshot.cap", "leaf128.setup", "leaf128.tag", "util.check_tag.contract", "clean.arena", "free.prng", "trng.getrandom", "prng.init.budget",
+              "hkdf.expand.sm", "prng.reseed.proto", "prng.init.proto"] + [n for n in JOBS if n.startswith(("hkdf.step.grid.", "prng.ops.fn."))],
     "pre": [facts.library_facts],
-    "text": "(1) frames: every function under contract writes only objects reachable from its pointer arguments (assigns clauses and exact-size objects turn any other write into a failed obligation); (2) facts read from the goto binary of the WHOLE library built from the current tree: no writable object with static storage duration is defined by library code and no heap or non-reentrant libc function is called. From (1) and (2) two calls on disjoint objects have disjoint frames and read no shared mutable location, hence commute.",
+    # a result that depends on what the state object or the stack held before (not on the call's inputs) shows up as a
+    # failed functional obligation of these jobs, which start from ARBITRARY prior contents: counted for C19 as well
+    "adopt": ["C11", "C13", "C15", "C17"],
+    "text": "(1) frames: every function under contract writes only objects reachable from its pointer arguments (assigns clauses and exact-size objects turn any other write into a failed obligation); (1b) every operation is verified from ARBITRARY prior contents of the state object and of its own locals (CBMC gives uninitialised memory arbitrary values), so a result that depends on leftovers of earlier unrelated calls fails a functional obligation; (2) facts read from the goto binary of the WHOLE library built from the current tree: no writable object with static storage duration is defined by library code and no heap or non-reentrant libc function is called. From (1) and (2) two calls on disjoint objects have disjoint frames and read no shared mutable location, hence commute.",
     "note": "thread SCHEDULES are not explored (CBMC's concurrency support is not part of this technique): 'concurrent calls equal serial execution' follows from the disjoint-frame argument, which is a stated meta-step; the symbol-table scan is a supporting static fact, not a deductive proof. errno (thread-local in glibc) is written by the OS calls in the TRNG.",
     "technique": "contract frames (CBMC assigns obligations) + symbol-table / call-graph facts of the goto binary",
     "trusted": TRUSTED,
